@@ -201,6 +201,9 @@ pub fn run_scenarios(scs: &[Value]) -> Vec<String> {
     pricelevel::verif_shim::set_hook(Some(sched.clone()));
     let out = Arc::new(Out { lines: Mutex::new(vec![]) });
     for (ix, sc) in scs.iter().enumerate() {
+        // input corners (see model.rs): timestamps shifted by an offset, ids in the ULID format
+        TSOFF.store(sc["tsoff"].as_str().and_then(|x| x.parse::<u64>().ok()).or(sc["tsoff"].as_u64()).unwrap_or(0), std::sync::atomic::Ordering::Relaxed);
+        ULID_IDS.store(sc["ulid"].as_bool().unwrap_or(false), std::sync::atomic::Ordering::Relaxed);
         if sc.get("via").is_some() {
             out.push(build_line(sc, ix));
             continue;
